@@ -9,9 +9,9 @@ from vlib.verdict import Case
 
 PROPERTY = 'C12'
 MANIFEST = {
- 'level_text': 'Lean 4 theorems, kernel-checked, about a model of the whole splitting pipeline: byteTextWrap/splitBytes (for every chunk list and every size >= 4 the loop terminates, the lines concatenate to the text and none exceeds the size), FormatContext/FormatParser/ircutils.wrap (every re-opened chunk costs at most FormatContext.size() more bytes; every wrapped line fits the requested length whenever the re-parsed contexts stay within the reserved overhead, which is proved outright for text without formatting codes), the reply arithmetic (every message of a chunked reply, prefixed with the bot hostmask as the server relays it, is at most 512 bytes, for every target / nick-prefix / notice / private / to= combination, bot hostmask, nick and reply.mores setting) and the more protocol (first message plus successive more commands deliver the chunks in order, each exactly once, each followed by the exact count of remaining messages, for every instant and batch size). Constants (512, suffix texts, FormatContext sizes, control characters, getInt base/limit, splitBytes tries) are re-extracted from /repo on every run; the model is tied to the code by a differential run (pure functions on thousands of generated strings, and real replies + more on a live bot through the synthetic plugin VtLong) that also evaluates the property statement on the implementation.',
- 'level_note': 'Trusted: Lean kernel (axioms propext/Classical.choice/Quot.sound only); harness/extractors/reply.py; the correspondence harness (generators bound what it sees); parameters of the model: textwrap.TextWrapper()._split_chunks (contract: chunks concatenate to the munged text, checked by the model driver on every case), repr() in safeArgument (the model takes the text after safeArgument), irc.isChannel (three booleans). Modelled: splitBytes, byteTextWrap, textwrap whitespace munging, FormatContext.start/end/size, FormatParser.parse/getInt/getColor, ircutils.wrap, _makeReply (command, target, nick prefix, strip of \\x01), the length-checked branch of NestedCommandsIrcProxy.reply (allowedLength, truncation, suffix reserve, suffixes, instant, _mores), Misc.more for the requester. Not modelled: nested/not-final replies, action/error replies, the more-of-another-nick path, translations other than English, reply.mores off. Recorded findings (not repaired): cut of an over-long word inside a \\x03NN sequence, re-opened colour code directly followed by ",<digit>", reply.mores.maximum counted in characters.',
- 'technique': 'Lean 4 proof (induction over fuel/strings, loop invariants) + constant extraction + differential correspondence (pure + live bot)',
+ 'level_text': 'Lean 4 theorems, kernel-checked, about an executable model of the whole splitting pipeline. (1) byteTextWrap/splitBytes: for every chunk list and every size >= 4 the loop terminates normally, the lines concatenate to the munged text, none exceeds the size, none is empty. (2) FormatContext/FormatParser/ircutils.wrap: re-opening a context costs at most size() bytes; by a simulation proof, for EVERY text (colours, bold/underline/reverse, over-long words, multi-byte characters) whose wrapped lines do not begin with a digit or comma the contexts recomputed from the produced lines are those of the text, hence every line fits the requested length and the client-visible text (stripFormatting modelled as a state machine) of the lines concatenates to the visible text of the input; unconditionally for text without colour codes. (3) reply arithmetic: every message of a chunked (or single) reply, prefixed with the bot hostmask as the server relays it, is at most 512 bytes, for every target / nick-prefix / notice / private / to= combination, hostmask, nick and reply.mores.{maximum,instant} setting. (4) more protocol: first answer plus successive more commands deliver the chunks in order, each exactly once, each followed by the exact count of messages remaining, for every instant and sequence of batch sizes. The three places where the full statements are false on the pinned tree are kept visible with proved counter-examples and are listed known findings. Constants (512, suffix texts, FormatContext sizes, control characters, getInt base/limit, splitBytes tries, the stripColor regex) are re-extracted from /repo on every run; the model is tied to the code by a differential run (pure functions on tens of thousands of generated strings; real replies + more on a live bot through the synthetic plugin VtLong) that also evaluates the property statement on the implementation.',
+ 'level_note': 'Trusted: Lean kernel (axioms propext/Classical.choice/Quot.sound only); harness/extractors/reply.py; the correspondence harness (generators bound what it sees); parameters of the model: textwrap.TextWrapper()._split_chunks (contract: chunks concatenate to the munged text, checked by the model driver on every case), repr() in safeArgument (the model takes the text after safeArgument), irc.isChannel (three booleans), \\d of the stripColor regex restricted to ASCII digits. Modelled: splitBytes, byteTextWrap, textwrap whitespace munging, FormatContext.start/end/size, FormatParser.parse/getInt/getColor, ircutils.wrap, stripFormatting, _makeReply (command, target, nick prefix, strip of \\x01, empty-message text), the length-checked branch of NestedCommandsIrcProxy.reply (allowedLength, truncation, suffix reserve, suffixes, instant, _mores), Misc.more for the requester. Not modelled: nested/not-final replies, action/error replies, more <nick> and several requesters sharing _mores, translations other than English, reply.mores off, an explicit reply.mores.length (512 is then the operator\'s business; correspondence still covers it). Four defects were repaired in /repo (fixes/C12-*.patch); three are recorded findings: cut of an over-long word inside a \\x03NN sequence, re-opened colour code running into the digits/comma that follow, reply.mores.maximum counted in characters.',
+ 'technique': 'Lean 4 proof (induction over fuel/strings, loop invariants, simulation between two parser runs, finite tables by decide) + constant extraction + differential correspondence (pure + live bot)',
  'design_ref': 'DESIGN.md §6 C12',
 }
 THEOREMS = [
@@ -22,7 +22,7 @@ THEOREMS = [
     'C12.visible_text_plain', 'C12.flags_ok', 'C12.coherent_nocolour', 'C12.ircWrap_nocolour', 'C12.fits_512_nocolour',
     'C12.visible_text_counterexample', 'C12.chunk_count_partial', 'C12.chunk_count_counterexample',
     'C12.colour_ok', 'C12.coherent_clean', 'C12.ircWrap_fits_clean', 'C12.fits_512_clean',
-    'C12.visible_text_clean',
+    'C12.visible_text_clean', 'C12.reply_text_clean',
 ]
 TRUSTED = ['Lean 4.33.0 kernel; axioms ⊆ {propext, Classical.choice, Quot.sound}',
            'harness/extractors/reply.py (constants of splitBytes, FormatContext, FormatParser, reply, _makeReply → Gen/Reply.lean)',
